@@ -136,9 +136,6 @@ func (r *Record) Start() int {
 
 // Bin returns the BAM index bin of the record.
 func (r *Record) Bin() int {
-	if r.Flags&(Unmapped|MateUnmapped) == Unmapped|MateUnmapped {
-		return 4680 // reg2bin(-1, 0)
-	}
 	return int(internal.BinFor(r.Pos, r.End()))
 }
 
